@@ -331,3 +331,61 @@ func VerifH_C06_resume() {
 	vCover("C06.resume.one-done", ended[1] == 1 || ended[3] == 1)
 	vCover("C06.resume.negative-window", strmGrant[1] < sent[1])
 }
+
+// The acknowledgement of a SETTINGS frame tells the peer that the new
+// SETTINGS_INITIAL_WINDOW_SIZE is in force: the DATA octets that follow the ACK
+// on the wire have to fit the stream window as the peer then computes it. Two
+// ways in which something to send and the SETTINGS frame arrive in one read:
+// the request itself (new window 0, 5 or 20, response 12 octets), or a
+// WINDOW_UPDATE of 4 for a response parked on a window of 8 that the SETTINGS
+// frame then lowers to 2, 6 or 9.
+//
+//verif:harness prop=C06,C18 unwind=200 timeout=600
+func VerifH_C06_ack() {
+	s := vStartServer(8)
+	body := []byte("0123456789ab")
+	s.sc.h = func(ctx *fasthttp.RequestCtx) {
+		ctx.Response.SetStatusCode(200)
+		ctx.Response.SetBody(body)
+	}
+	var chunk []byte
+	var peer int64 // the stream window as the peer sees it once its SETTINGS frame is acknowledged
+	if vBool() {
+		win := [3]int64{0, 5, 20}[vRange(0, 2)]
+		chunk = vFrame(0x1, 0x5, 1, vReqBlock('1'))
+		chunk = append(chunk, vFrame(0x4, 0x0, 0, []byte{0, 4, 0, 0, 0, byte(win)})...)
+		peer = win
+	} else {
+		s.send(vFrame(0x4, 0x0, 0, []byte{0, 4, 0, 0, 0, 8}))
+		s.send(vFrame(0x1, 0x5, 1, vReqBlock('1')))
+		s.replies() // 8 of the 12 octets have gone out, 4 wait for window
+		win := [3]int64{2, 6, 9}[vRange(0, 2)]
+		chunk = vFrame(0x8, 0x0, 1, []byte{0, 0, 0, 4})
+		chunk = append(chunk, vFrame(0x4, 0x0, 0, []byte{0, 4, 0, 0, 0, byte(win)})...)
+		peer = 8 - 8 + 4 + (win - 8)
+	}
+	s.send(chunk)
+	before, after := int64(0), int64(0)
+	acked := false
+	for _, fr := range s.replies() {
+		switch b := fr.Body().(type) {
+		case *Settings:
+			if b.IsAck() {
+				acked = true
+			}
+		case *Data:
+			if acked {
+				after += int64(len(b.Data()))
+			} else {
+				before += int64(len(b.Data()))
+			}
+		}
+	}
+	vAssert(acked, "C06.ack.acknowledged")
+	room := peer - before
+	if room < 0 {
+		room = 0
+	}
+	vAssert(after <= room, "C06.ack.data-after-the-ack-respects-the-new-window")
+	vCover("C06.ack.parked", before+after > 0 && acked)
+}
